@@ -232,6 +232,23 @@ def judge_lp(ex, ref, probe_cap=0, probe_rng=None, counters=None):
         got_ok = len(opt_lines) == len(exp_kw) and all(k in l for k, l in zip(exp_kw, opt_lines))
     else:
         got_ok = len(opt_lines) <= len(exp_kw) and all(k in l for k, l in zip(exp_kw, opt_lines))
+        # "only the prefix up to the first solve that does not reach Optimal is reported": when the
+        # trace lets us locate that solve, nothing after its criterion may be listed
+        ev = ex['events']
+        bad_at = next((i for i, e2 in enumerate(ev) if not (e2['status'] == 1 and e2['sol_status'] == 1)), None)
+        if got_ok and crits and bad_at is not None:
+            per = [len(rm.elementary_steps(inst, [c])) for c in crits]
+            if all(n >= 1 for n in per):
+                acc, ci = 0, None
+                for idx, n in enumerate(per):
+                    if bad_at < acc + n:
+                        ci = idx
+                        break
+                    acc += n
+                if ci is not None:
+                    cnt('c16_prefix_located')
+                    if len(opt_lines) > ci + 1:
+                        got_ok = False
     cnt('c16_order_judged')
     if not got_ok:
         fs.append(F('C16', 'info_order', 'optimisation lines %r, expected order %r' % (opt_lines, exp_kw)))
